@@ -204,6 +204,10 @@ def _elast(ctx, tmp):
                 if not close(vol.volume, volumes[r]):
                     bad = f"row {r}: volume {vol.volume} vs {volumes[r]}"
                     break
+                raw = [key for key in vol.static_elastic_modulus if not hasattr(key, "voigt")]
+                if raw:
+                    bad = f"row {r}: components keyed by the raw labels {raw[:4]} instead of canonical Voigt keys"
+                    break
                 got = {tuple(int(x) for x in key.voigt): val for key, val in vol.static_elastic_modulus.items()}
                 if set(got) != set(comps):
                     bad = f"row {r}: keys {sorted(got)} vs {sorted(comps)}"
